@@ -10,11 +10,12 @@ of the remote party (also replies no script produces), several limiters on one s
   period_refines_spec_windows, period_api_refines_spec (a window PER TAKE: `Align()` over a whole run),
   period_api_never_limits_or_grants, period_limiters_with_other_prefix_independent
   new_token_keys_distinct, new_token_keys_injective, token_api_refines_bucket, token_api_rate_bound,
-  token_keys_independent
+  token_keys_independent, new_token_keys_disjoint, token_keys_refine_own_bucket, token_api_keys_refine_own_bucket
 -/
 import GoZero.C03.ScriptRun
 import GoZero.C03.Props
 import GoZero.C03.ProofsPeriodW
+import GoZero.C03.ProofsTokenKeys
 namespace GoZero.C03.PropsApi
 open GoZero.C03 Spec
 
@@ -360,5 +361,54 @@ example : ∃ s1 s2 ok1 ok2,
     tokenScript true (newTokenCfg 5 3 "ab") s1 100 3 = some (s2, ok2) ∧ ok2 = true ∧
     filledTokens (newTokenCfg 1 2 "a") s2 100 = 0 := by
   refine ⟨_, _, _, _, rfl, ?_, rfl, ?_, ?_⟩ <;> decide
+
+/-- a token key is never a timestamp key, whatever the two caller keys are (the formats end differently) -/
+theorem token_key_ne_timestamp_key (r b r' b' : Nat) (a a' : String) :
+    (newTokenCfg r b a).k1 ≠ (newTokenCfg r' b' a').k2 := by
+  intro h
+  have h2 := congrArg (fun s : String => (s.toList.reverse.take 2)) h
+  simp [newTokenCfg] at h2
+
+/-- limiters built with different caller keys use four pairwise different Redis keys -/
+theorem new_token_keys_disjoint (r b r' b' : Nat) (a a' : String) (h : a ≠ a') :
+    KeysDisjoint (newTokenCfg r b a) (newTokenCfg r' b' a') := by
+  refine ⟨?_, token_key_ne_timestamp_key r b r' b' a a', ?_, ?_⟩
+  · intro e; exact h (new_token_keys_injective r b r' b' a a' (Or.inl e))
+  · intro e; exact token_key_ne_timestamp_key r' b' r b a' a e.symm
+  · intro e; exact h (new_token_keys_injective r b r' b' a a' (Or.inr e))
+
+/-- **Several keys on one store: every key is its own bucket, over whole runs.**  The operations of the limiters of
+configuration `c` (requests of any instance, clock advances, outages, recoveries, monitor events) are interleaved in ANY
+way with store-decided requests of limiters whose Redis keys are different (any rate, burst, size, time); if `c`'s own
+operations are well-timed, the requests of `c`'s limiters that reach the store are decided by ONE bucket of size
+`c.burst` refilled at `c.rate` — exactly as if the other limiters did not exist (`runK_eq_run`). -/
+theorem token_keys_refine_own_bucket (c : TCfg) (hr : 0 < c.rate) (hk : c.k1 ≠ c.k2) (ops : List KOp)
+    (hf : Foreign c ops) (ht : Timed c (ownOps ops)) :
+    Sys.runK c (Sys.init c) ops = Sys.run true c (Sys.init c) (ownOps ops) ∧
+    (storeEvs (Sys.runK c (Sys.init c) ops)).map (·.ok)
+      = Bucket.run c.rate c.burst (Bucket.init c.burst) ((storeEvs (Sys.runK c (Sys.init c) ops)).map callOf) := by
+  have h := runK_eq_run c hk ops (Sys.init c) (Sys.init c) hf ⟨rfl, rfl, rfl, rfl, rfl⟩
+  refine ⟨h, ?_⟩
+  rw [h]
+  exact Props.token_refines_bucket c hr hk (ownOps ops) ht
+
+/-- … for the whole configuration space of the constructor: any rate ≥ 1, burst and caller key, next to limiters built
+with ANY other caller keys (any rates and bursts) -/
+theorem token_api_keys_refine_own_bucket (rate burst : Nat) (key : String) (hr : 0 < rate) (ops : List KOp)
+    (hf : ∀ c' now n, KOp.other c' now n ∈ ops → ∃ r' b' key', key' ≠ key ∧ c' = newTokenCfg r' b' key')
+    (ht : Timed (newTokenCfg rate burst key) (ownOps ops)) :
+    (storeEvs (Sys.runK (newTokenCfg rate burst key) (Sys.init (newTokenCfg rate burst key)) ops)).map (·.ok)
+      = Bucket.run rate burst (Bucket.init burst)
+          ((storeEvs (Sys.runK (newTokenCfg rate burst key) (Sys.init (newTokenCfg rate burst key)) ops)).map callOf) := by
+  have hf' : Foreign (newTokenCfg rate burst key) ops := by
+    intro c' now n hm
+    obtain ⟨r', b', key', hne, hc⟩ := hf c' now n hm
+    subst hc
+    exact new_token_keys_disjoint rate burst r' b' key key' (Ne.symm hne)
+  exact (token_keys_refine_own_bucket (newTokenCfg rate burst key) hr (new_token_keys_distinct rate burst key) ops hf' ht).2
+
+example : (Sys.runK (newTokenCfg 1 2 "a") (Sys.init (newTokenCfg 1 2 "a"))
+      [.own (.allow 0 100000000000 2), .other (newTokenCfg 5 3 "ab") 100 3, .own (.allow 1 100000000000 1),
+       .other (newTokenCfg 5 3 "") 100 1, .own (.allow 0 101000000000 1)]).map (·.ok) = [true, false, true] := by decide
 
 end GoZero.C03.PropsApi
